@@ -947,9 +947,9 @@ func (P *Program) ScanObligations(prop string) (*Result, []string) {
 func immutableProps(pkg string) []string {
 	switch pkg {
 	case "types":
-		return []string{"C01", "C05", "C07", "C16", "C17"}
+		return []string{"C01", "C05", "C07", "C13", "C16", "C17"}
 	case "val":
-		return []string{"C01", "C02", "C03", "C04", "C18"}
+		return []string{"C01", "C02", "C03", "C04", "C13", "C18"}
 	case "ast":
 		return []string{"C10", "C13"}
 	case "sql":
